@@ -225,7 +225,7 @@ func scheduleScenarios(c *hx.Ctx) []*scn {
 					s.waitCount("online", 1)
 					s.via(func() { s.cmd(unsub("c")) })
 					s.via(func() { s.cmd(pub("t", "q2", 2)) })
-					s.waitFuts(5)
+					s.recovers()
 				})
 				s.clean = clean
 				for _, k := range fs {
@@ -256,8 +256,7 @@ func scheduleScenarios(c *hx.Ctx) []*scn {
 					s.waitCount("online", 2)
 					s.via(func() { s.cmd(pub("t", "3", 1)) })
 					s.via(func() { s.cmd(sub("m/z", 0)) })
-					s.waitCount("peerreq", 6)
-					s.waitCount("ack", 3)
+					s.recovers()
 				})
 				s.clean = clean
 				p := connPlan{}
@@ -292,8 +291,9 @@ func scheduleScenarios(c *hx.Ctx) []*scn {
 				s.via(func() { s.cmd(pub("t", "drop-here", 1)) })
 				s.via(func() { s.cmd(unsub("r/10")) }) // queued while the resubscribes fail
 				s.waitCount("online", 2+len(fs))
-				s.via(func() { s.cmd(pub("t", "after", 1)) })
-				s.waitCount("fut", 5)
+				var a int
+				s.via(func() { a = s.cmd(pub("t", "after", 1)) })
+				s.waitFut(a)
 			})
 			s.clean = i%2 == 0
 			s.plans = []connPlan{{dropAfter: 3}}
@@ -316,7 +316,9 @@ func scheduleScenarios(c *hx.Ctx) []*scn {
 					s.via(func() { s.cmd(b) })
 				}
 				s.waitCount("online", 2)
-				s.waitFuts(5)
+				var a int
+				s.via(func() { a = s.cmd(pub("t", "after", 1)) })
+				s.waitFut(a)
 			})
 			s.clean = clean
 			s.plans = []connPlan{{failSend: k}}
@@ -458,7 +460,162 @@ func scheduleScenarios(c *hx.Ctx) []*scn {
 	return out
 }
 
-func randomScenarios(c *hx.Ctx) []*scn { return nil }
 
-var _ = rand.Int
-var _ sync.Mutex
+func randPlan(r *rand.Rand) connPlan {
+	x := r.Intn(100)
+	switch {
+	case x < 40:
+		return connPlan{sp: r.Intn(2) == 0}
+	case x < 58:
+		k := failKinds[r.Intn(len(failKinds))]
+		if k == "no-connack" && r.Intn(3) != 0 {
+			k = "refuse"
+		}
+		return failPlan(k)
+	case x < 68:
+		return connPlan{dropAfter: 1 + r.Intn(5)}
+	case x < 76:
+		return connPlan{dropAfterAck: 1 + r.Intn(5)}
+	case x < 84:
+		return connPlan{failSend: 2 + r.Intn(5)}
+	case x < 89:
+		return connPlan{failRecv: 2 + r.Intn(5)}
+	case x < 94:
+		return connPlan{reject: map[int]bool{1 + r.Intn(3): true}}
+	case x < 97:
+		return connPlan{noAck: map[int]bool{1 + r.Intn(4): true}, dropAfter: 3 + r.Intn(4)}
+	default:
+		return connPlan{noAck: map[int]bool{1: true}}
+	}
+}
+
+func randBody(r *rand.Rand) body {
+	topics := []string{"a", "b", "c", "a/b", "a/+", "#", "d"}
+	t := func() string { return topics[r.Intn(len(topics))] }
+	switch r.Intn(10) {
+	case 0, 1, 2:
+		return sub(t(), r.Intn(3))
+	case 3:
+		return sub(t(), r.Intn(3), t(), r.Intn(3), t(), r.Intn(3))
+	case 4, 5:
+		return unsub(t())
+	case 6:
+		return unsub(t(), t())
+	default:
+		return pub("p/"+t(), fmt.Sprintf("m%d", r.Intn(1000)), r.Intn(3))
+	}
+}
+
+func randomScenarios(c *hx.Ctx) []*scn {
+	var out []*scn
+	n := 80
+	if c.Thorough() {
+		n = 1200
+	}
+	for i := 0; i < n; i++ {
+		r := rand.New(rand.NewSource(c.Rng.Int63()))
+		s := mk(fmt.Sprintf("rand-%d-%d", c.Seed, i), nil)
+		s.clean = r.Intn(2) == 0
+		for j := 0; j < 10; j++ {
+			s.plans = append(s.plans, randPlan(r))
+		}
+		nops := 6 + r.Intn(20)
+		type op struct {
+			k     int
+			b     body
+			clear bool
+			ms    int
+		}
+		var ops []op
+		for j := 0; j < nops; j++ {
+			x := r.Intn(100)
+			switch {
+			case x < 66:
+				ops = append(ops, op{k: 0, b: randBody(r)})
+			case x < 74:
+				ops = append(ops, op{k: 1, clear: r.Intn(2) == 0})
+			case x < 84:
+				ops = append(ops, op{k: 2})
+			case x < 92:
+				ops = append(ops, op{k: 3})
+			default:
+				ops = append(ops, op{k: 4, ms: 1 + r.Intn(3)})
+			}
+		}
+		if r.Intn(4) != 0 {
+			ops = append([]op{{k: 2}}, ops...)
+		}
+		s.script = func(s *scn) {
+			for _, o := range ops {
+				o := o
+				switch o.k {
+				case 0:
+					s.via(func() { s.cmd(o.b) })
+				case 1:
+					s.via(func() { s.stop(o.clear) })
+				case 2:
+					s.via(func() { s.start() })
+				case 3:
+					// give the supervisor a chance to come online (not required to)
+					before := s.count("online")
+					for t := 0; t < 40 && s.count("online") == before; t++ {
+						time.Sleep(time.Millisecond)
+					}
+				case 4:
+					time.Sleep(time.Duration(o.ms) * time.Millisecond)
+				}
+			}
+			// whatever happened, a running service recovers: a fresh command completes
+			s.via(func() { s.start() })
+			s.recovers()
+		}
+		out = append(out, s)
+	}
+
+	// API calls racing for the service mutex from several goroutines (no harness-side order, no monitor):
+	// per caller the requests reach the peers in the caller's order; Stop(true) leaves nothing pending
+	nc := 6
+	if c.Thorough() {
+		nc = 60
+	}
+	for i := 0; i < nc; i++ {
+		r := rand.New(rand.NewSource(c.Rng.Int63()))
+		s := mk(fmt.Sprintf("conc-%d-%d", c.Seed, i), nil)
+		s.noMon = true
+		s.clean = false
+		for j := 0; j < 3; j++ {
+			s.plans = append(s.plans, connPlan{dropAfterAck: 3 + r.Intn(12), sp: true})
+		}
+		stops := r.Intn(3)
+		s.script = func(s *scn) {
+			s.start()
+			var wg sync.WaitGroup
+			for g := 0; g < 4; g++ {
+				g := g
+				wg.Add(1)
+				go func() {
+					defer wg.Done()
+					for j := 0; j < 10; j++ {
+						if j%4 == 3 {
+							s.cmd(sub(fmt.Sprintf("g%d/%d", g, j), j%3))
+						}
+						s.cmd(pub("conc", fmt.Sprintf("%d-%03d", g, j), 1))
+					}
+				}()
+			}
+			wg.Add(1)
+			go func() {
+				defer wg.Done()
+				for k := 0; k < stops; k++ {
+					time.Sleep(time.Millisecond)
+					s.stop(false)
+					s.start()
+				}
+			}()
+			wg.Wait()
+			s.recovers()
+		}
+		out = append(out, s)
+	}
+	return out
+}
